@@ -41,18 +41,31 @@ def obligations(tier, seed):
     def ovb(ov):
         return ['b%d == %s' % (14 + i, bool((ov >> i) & 1)) for i in range(6)]
     ovs = (0,) if tier == 'quick' else (0, 1, 2)
-    q = ['b9 == %s' % bool(seed & 1), 'b8 == %s' % bool(seed & 2)] if tier == 'quick' else []
     dev = list(range(3, pk.N_OV))
     if tier == 'quick':
         # single-option deviations: a seeded third of them per quick run
         dev = [ov for ov in dev if (ov + seed) % 3 == 0]
-    obs = [
-        dict(name='C08a.minify_total', fn='minify_total', timeout=t, shards=[top(i) + q + ovb(ov) for i in range(16) for ov in ovs],
-             bounds='all %d statement templates x %d child kinds x option vectors %r' % (pk.N_STMT, pk.N_CHILD, ovs)),
-        dict(name='C08a.minify_total_expr', fn='minify_total_expr', timeout=t, public_replay='public_minify_total_expr',
-             shards=[top(i) + q + ovb(0) for i in range(16)], bounds='all %d expression slots x %d child kinds, default options' % (pk.N_SLOT, pk.N_CHILD)),
-        dict(name='C08a.option_vectors', fn='minify_total', timeout=t, shards=([top((ov * 5 + seed) % 16) + q + ovb(ov) for ov in dev] if tier == 'quick' else [top(i, 2) + ovb(ov) for ov in dev for i in range(4)]),
-             bounds='single-option deviations %r x all statement templates x child kinds' % (dev,)),
+    def ovq(ov):
+        return ['b%d == %s' % (12 + i, bool((ov >> i) & 1)) for i in range(6)]
+    if tier == 'quick':
+        obs = [
+            dict(name='C08a.minify_total', fn='minify_total_q', timeout=t, shards=[ovq(0) + ['b11 == %s' % a] for a in (True, False)] + [ovq(2) + ['b11 == %s' % a] for a in (True, False)],
+                 bounds='all %d statement templates x 32 interesting child kinds x option vectors default / all-on' % pk.N_STMT),
+            dict(name='C08a.minify_total_expr', fn='minify_total_expr_q', timeout=t, public_replay=None, shards=[ovq(0) + ['b11 == %s' % a] for a in (True, False)],
+                 bounds='all %d expression slots x 32 interesting child kinds, default options' % pk.N_SLOT),
+            dict(name='C08a.option_vectors', fn='minify_total_q', timeout=t, shards=[ovq(ov) + ['b11 == %s' % bool((ov + seed) & 1), 'b10 == %s' % bool((ov + seed) & 2)] for ov in dev],
+                 bounds='single-option deviations %r x a seeded quarter of (statement templates x interesting child kinds)' % (dev,)),
+        ]
+    else:
+        obs = [
+            dict(name='C08a.minify_total', fn='minify_total', timeout=t, shards=[top(i) + ovb(ov) for i in range(16) for ov in ovs],
+                 bounds='all %d statement templates x %d child kinds x option vectors %r' % (pk.N_STMT, pk.N_CHILD, ovs)),
+            dict(name='C08a.minify_total_expr', fn='minify_total_expr', timeout=t, public_replay='public_minify_total_expr',
+                 shards=[top(i) + ovb(0) for i in range(16)], bounds='all %d expression slots x %d child kinds, default options' % (pk.N_SLOT, pk.N_CHILD)),
+            dict(name='C08a.option_vectors', fn='minify_total', timeout=t, shards=[top(i, 2) + ovb(ov) for ov in dev for i in range(4)],
+                 bounds='single-option deviations %r x all statement templates x child kinds' % (dev,)),
+        ]
+    obs += [
         dict(name='C08b.integer_total', fn='integer_total', timeout=t, shards=[[]], bounds='13 representative digit counts around the hex/decimal cross-over and the 4300-digit limit x 10 previous-token classes', public_replay='public_integer_total'),
         dict(name='C08b.fstr_str_total', fn='fstr_str_total', timeout=t, shards=[['len(s) <= %d' % n, 'not has_surrogate(s)']], bounds='|s| <= %d over all non-surrogate Unicode, PEP 701, all quotes (surrogates: alphabet variant)' % n,
              public_replay='public_nested_str'),
